@@ -90,7 +90,9 @@ impl Model {
     pub fn doc_element(&self, d: usize) -> Option<usize> { self.n[d].children.iter().cloned().find(|&c| self.n[c].kind == K::Element) }
     pub fn doc_doctype(&self, d: usize) -> Option<usize> { self.n[d].children.iter().cloned().find(|&c| self.n[c].kind == K::Doctype) }
 
-    pub fn attr_value(&self, a: usize) -> String { self.n[a].children.iter().map(|&c| self.n[c].data.clone()).collect() }
+    /// the value an attribute reports: its pieces concatenated; xml-rs applies the XML 1.0 3.3.3 rule (literal TAB/LF/CR of
+    /// text pieces read as spaces) whenever the value is read, which DOM Level 1 leaves to the implementation
+    pub fn attr_value(&self, a: usize) -> String { self.n[a].children.iter().map(|&c| if self.n[c].kind == K::EntRef && self.n[c].name.starts_with("&#") { self.n[c].data.clone() } else { crate::model::ws_to_space(&self.n[c].data) }).collect() }
 
     fn insert_expect(&self, p: usize, c: usize, r: Option<usize>) -> Expect {
         let (pk, ck) = (self.n[p].kind, self.n[c].kind);
@@ -104,6 +106,8 @@ impl Model {
         if let Some(r) = r { if self.n[r].parent != Some(p) { errs.push(E::NotFound); } }
         // a document holds at most one element: a second one is refused (moving the one it has is fine)
         if pk == K::Document && ck == K::Element { if let Some(e) = self.doc_element(p) { if e != c { errs.push(E::HierarchyRequest); } } }
+        // a Document node has no owner document: WRONG_DOCUMENT is as defensible as the other classes when one is passed
+        if !errs.is_empty() && (ck == K::Document || r.map(|r| self.n[r].kind == K::Document).unwrap_or(false)) { errs.push(E::WrongDocument); }
         if !errs.is_empty() { errs.sort(); errs.dedup(); return Expect::err(errs); }
         if Some(c) == r { return Expect::unspecified(); }
         Expect::ok()
@@ -118,13 +122,16 @@ impl Model {
             Op::InsertBefore { p, c, r } => self.insert_expect(*p, *c, *r),
             Op::ReplaceChild { p, n, o } => {
                 let e = self.insert_expect(*p, *n, Some(*o));
-                if n == o { return Expect::unspecified(); }
+                if n == o || self.n[*o].kind == K::Doctype { return Expect::unspecified(); }
                 // replacing the document element by another element is legal although a second element may not be inserted
                 if !e.ok && self.n[*p].kind == K::Document && self.n[*n].kind == K::Element && self.n[*o].kind == K::Element && self.n[*o].parent == Some(*p) && self.n[*n].doc == self.n[*p].doc && !self.is_ancestor_or_self(*n, *p) { return Expect::ok(); }
                 e
             }
             Op::RemoveChild { p, o } => {
                 if !matches!(self.n[*p].kind, K::Element | K::Document | K::Attr) { return Expect::err(vec![E::HierarchyRequest, E::NotFound, E::NotCallable]); }
+                // removing the document type takes the entity declarations with it; DOM Level 1 treats the doctype as read-only and does not say
+                if self.n[*o].kind == K::Doctype { return Expect::unspecified(); }
+                if self.n[*o].kind == K::Document { return Expect::err(vec![E::NotFound, E::WrongDocument]); }
                 if self.n[*o].parent == Some(*p) { Expect::ok() } else if self.n[*o].doc != self.n[*p].doc { Expect::err(vec![E::NotFound, E::WrongDocument]) } else { Expect::err(vec![E::NotFound]) }
             }
             Op::SetAttribute { e, name, .. } => { if self.n[*e].kind != K::Element { return Expect::err(vec![E::NotCallable]); } if Self::name_ok(name) { Expect::ok() } else { Expect::err(vec![E::InvalidCharacter]) } }
@@ -252,6 +259,15 @@ impl Model {
 
     fn check_fresh(&self, i: usize) -> Result<(), String> { if self.n[i].parent.is_some() || self.n[i].owner.is_some() || !self.n[i].children.is_empty() { Err(format!("factory returned node #{} that is already in use", i)) } else { Ok(()) } }
 
+    /// the data a character-data call would leave (None for other calls)
+    pub fn result_data(&self, op: &Op) -> Option<(K, String)> {
+        let mut m = self.clone();
+        let n = match op { Op::SetData { n, .. } | Op::SetNodeValue { n, .. } | Op::AppendData { n, .. } | Op::InsertData { n, .. } | Op::DeleteData { n, .. } | Op::ReplaceData { n, .. } => *n, _ => return None };
+        if !matches!(self.n[n].kind, K::Text | K::CData | K::Comment | K::PI) { return None; }
+        m.apply(op, None).ok()?;
+        Some((self.n[n].kind, m.n[n].data.clone()))
+    }
+
     /// value of a read-only call
     pub fn read(&self, op: &Op) -> Option<String> {
         match op {
@@ -275,7 +291,8 @@ impl Model {
             }
             K::Text => out.push_str(&format!("X {} {}\n", depth, esc(&nd.data))),
             K::CData => out.push_str(&format!("K {} {}\n", depth, esc(&nd.data))),
-            K::EntRef => out.push_str(&format!("R {} {} {}\n", depth, esc(&nd.name), esc(&nd.data))),
+            // the replacement text of a reference reads differently inside an attribute (white space normalised) and in content
+            K::EntRef => out.push_str(&format!("R {} {} {}\n", depth, esc(&nd.name), esc(&if nd.name.starts_with("&#") { nd.data.clone() } else { crate::model::ws_to_space(&nd.data) }))),
             K::Comment => out.push_str(&format!("C {} {}\n", depth, esc(&nd.data))),
             K::PI => out.push_str(&format!("P {} {} {}\n", depth, esc(&nd.name), esc(&nd.data))),
             _ => {}
